@@ -100,7 +100,9 @@ pub fn run(op: &str, var: &[&str], ints: &[i64], sc: &[V]) -> Out {
         "fuse" => op_fuse(f, st, t3, ints, sc),
         "fuse_os" => op_fuse_os(f, st, t3, ints, sc),
         "fuse_ss" => op_fuse_ss(f, t3, ints, sc),
+        "meq" if ints.len() == 2 => op_meq2(f, ints, sc),
         "meq" => op_meq(f, ints, sc),
+        "fuse_fold" => op_fuse_fold(f, var, ints, sc),
         "mbr" | "deduce" | "deduce_with" | "inverse" => op_cond(op, f, st, ints, sc),
         "abduce" | "abduce_with" => op_abduce(op, f, st, t3, ints, sc),
         "deduce2" => op_deduce2(f, st, ints, sc),
@@ -373,6 +375,99 @@ fn op_meq(f: char, ints: &[i64], sc: &[V]) -> Out {
             let l: Opinion<T, V> = mk_o(&sc[..2 * $n + 1]);
             let r: Opinion<T, V> = mk_o(&sc[2 * $n + 1..]);
             ok(&[l.simplex == r.simplex, l == r])
+        }};
+    }
+    chain!(@ [fam f; n14 n;] body [])
+}
+
+// meq over 2-D containers (M: MArr2, D/N: MArrD2 with roles X,Z); n0,n1 in 1..=3
+fn op_meq2(f: char, ints: &[i64], sc: &[V]) -> Out {
+    let Some(&[n0, n1]) = us(ints, 1, 3).as_deref() else { return Out::Unsup };
+    need!(sc.len() == 4 * n0 * n1 + 2);
+    macro_rules! body {
+        (A $n0:tt $n1:tt) => { Out::Unsup };
+        ($F:ident $n0:tt $n1:tt) => {{
+            type T = c2!($F, X, $n0, Z, $n1, V);
+            const K: usize = $n0 * $n1;
+            let l: Opinion<T, V> = mk_o(&sc[..2 * K + 1]);
+            let r: Opinion<T, V> = mk_o(&sc[2 * K + 1..]);
+            ok(&[l.simplex == r.simplex, l == r])
+        }};
+    }
+    chain!(@ [fam f; n13 n0; n13 n1;] body [])
+}
+
+// fuse_fold: ints n,op,k,style,p0..p(k-1); scalars k × O(n).  Fold in the order given by p.
+fn op_fuse_fold(f: char, var: &[&str], ints: &[i64], sc: &[V]) -> Out {
+    need!(ints.len() >= 4);
+    let Some(&[n]) = us(&ints[..1], 1, 4).as_deref() else { return Out::Unsup };
+    let Some(fo) = fuse_op(ints[1]) else { return Out::Unsup };
+    let Some(&[k]) = us(&ints[2..3], 1, 6).as_deref() else { return Out::Unsup };
+    let style = ints[3];
+    need!((0..=3).contains(&style));
+    need!(ints.len() == 4 + k);
+    let Some(p) = us(&ints[4..], 0, k as i64 - 1) else { return Out::Unsup };
+    let mut seen = [false; 6];
+    for &i in &p {
+        need!(!seen[i]);
+        seen[i] = true;
+    }
+    need!(sc.len() == k * (2 * n + 1));
+    let shared = var.iter().skip(2).any(|t| *t == "shared");
+    macro_rules! body {
+        ($F:ident $n:tt) => {{
+            type T = c1!($F, X, $n, V);
+            let w: Vec<Opinion<T, V>> = sc.chunks(2 * $n + 1).map(mk_o::<T>).collect();
+            let acc: Opinion<T, V> = match (style, shared) {
+                (0, true) => {
+                    // ONE base-rate object (w[0]'s values) borrowed by every operand; the
+                    // accumulator owns a clone after the first step.
+                    let a: T = w[0].base_rate.clone();
+                    let mut acc: Opinion<T, V> = OpinionBase {
+                        simplex: w[p[0]].simplex.clone(),
+                        base_rate: a.clone(),
+                    };
+                    for (j, &pj) in p[1..].iter().enumerate() {
+                        let wr = OpinionRef::from((&w[pj].simplex, &a));
+                        acc = if j == 0 {
+                            fo.fuse(OpinionRef::from((&w[p[0]].simplex, &a)), wr)
+                        } else {
+                            fo.fuse(acc.as_ref(), wr)
+                        };
+                    }
+                    acc
+                }
+                (0, false) => {
+                    let mut acc = w[p[0]].clone();
+                    for &pj in &p[1..] {
+                        acc = fo.fuse(&acc, &w[pj]);
+                    }
+                    acc
+                }
+                (1, _) => {
+                    let mut acc = w[p[0]].clone();
+                    for &pj in &p[1..] {
+                        fo.fuse_assign(&mut acc, &w[pj]);
+                    }
+                    acc
+                }
+                (2, _) => {
+                    let mut acc = w[p[0]].clone();
+                    for &pj in &p[1..] {
+                        fo.fuse_assign(&mut acc, w[pj].as_ref());
+                    }
+                    acc
+                }
+                _ => {
+                    // right-nested: fuse(w[p0], fuse(w[p1], ... w[p(k-1)]))
+                    let mut acc = w[p[k - 1]].clone();
+                    for &pj in p[..k - 1].iter().rev() {
+                        acc = fo.fuse(&w[pj], &acc);
+                    }
+                    acc
+                }
+            };
+            ok(&acc)
         }};
     }
     chain!(@ [fam f; n14 n;] body [])
